@@ -1097,6 +1097,8 @@ pub(crate) mod stmt_block {
 }
 
 pub fn format_stmt(ctx: &Context, stmt: &Stmt, shape: Shape) -> Stmt {
+    #[cfg(feature = "verif-hooks")]
+    crate::verif_hooks::tick();
     let should_format = ctx.should_format_node(stmt);
 
     if let FormatNode::Skip = should_format {
